@@ -282,6 +282,15 @@ class graph(Graph):
         else:
             oldnode.misc["cut"] = cutdone
             v = super(graph, self).add_vertex(v)  # ! avoid recursion for add_edge
+            # like a block that swallows the next one, v ends where the next
+            # mapped node starts (otherwise writing v would unmap that node):
+            try:
+                nextnode = mz._map[mz.locate(vaddr) + 1].data.val
+            except IndexError:
+                pass
+            else:
+                if vaddr + len(v) > nextnode.data.address:
+                    v.cut(nextnode.data.address)
             mz.write(vaddr, v)
             succ = oldnode.N(+1)
             self.add_edge(link(oldnode, v))
@@ -301,6 +310,10 @@ class graph(Graph):
             logger.verbose("add overlay block at %s" % vaddr)
             self.overlay = support
         i = support.locate(vaddr)
+        if i is None and len(support._map) > 0:
+            # v starts before every mapped node, it can't cut any of them
+            # but may swallow the first one (the "next" of index -1):
+            i = -1
         # check if block intersects others:
         if i is not None:
             mo = support._map[i]
